@@ -22,7 +22,7 @@ RULE = (
 )
 ASSUMPTIONS = [
     "A component spelling is joined to the next without a space only after 2, 4, ½ or ¼ (DESIGN 6.5).",
-    "Without clean_qq a bare quarter is generated only directly after a half that starts the chain or is separated from the component before it (the half is recognised at a word boundary; 'SW¼N½ SW' is outside the statement, which only says when a bare quarter may be read as an aliquot).",
+    "Without clean_qq bare quarters are generated only as an unbroken run directly after a half that starts the chain or is separated from the component before it (the half is recognised at a word boundary; 'SW¼N½ SW' is outside the statement, which only says when a bare quarter may be read as an aliquot).",
 ]
 
 CONFIGS = ["", "clean_qq", "qq_depth_min.1", "qq_depth.1", "qq_depth_max.2", "break_halves", "qq_depth_min.3",
@@ -45,16 +45,19 @@ def validate(c):
     sc = c["sc"]
     if not sc["chain"] or len(sc["chain"]) != len(sc["spell"]) or len(sc["joiners"]) != len(sc["chain"]) - 1:
         return False
+    clean = "clean_qq" in c["config"]
     for i, (comp, (fam, text)) in enumerate(zip(sc["chain"], sc["spell"])):
-        may_be_bare = "clean_qq" in c["config"] or (i > 0 and sc["chain"][i - 1] in aq.HALVES)
-        if comp not in aq.COMPONENTS or text.lower() not in {t.lower() for _, t in aq.spellings(comp, bare=may_be_bare)}:
+        in_run = i > 0 and (sc["chain"][i - 1] in aq.HALVES or sc["spell"][i - 1][0] == "bareq")
+        if comp not in aq.COMPONENTS or text.lower() not in {t.lower() for _, t in aq.spellings(comp, bare=clean or in_run)}:
             return False
-    for (fam, text), j in zip(sc["spell"], sc["joiners"]):
-        if j not in aq.JOINERS or (j == "" and text[-1] not in "24½¼"):
+        if fam == "bareq" and text.upper() != comp:
             return False
-    if "clean_qq" not in c["config"]:
+    for i, j in enumerate(sc["joiners"]):
+        if j not in aq.JOINERS or (j == "" and not aq.glue_ok(sc["spell"], i)):
+            return False
+    if not clean:
         for i, (fam, text) in enumerate(sc["spell"]):
-            if fam == "bareq" and i >= 2 and sc["joiners"][i - 2] == "":
+            if fam == "bareq" and i >= 2 and sc["chain"][i - 1] in aq.HALVES and sc["joiners"][i - 2] == "":
                 return False
     return True
 
@@ -73,6 +76,8 @@ def classes(c):
         out.append("bare_quarter_after_half_without_clean_qq")
         if any(f == "bareq" and i < len(sp) - 1 for i, (f, _) in enumerate(sp)):
             out.append("chain_continues_after_bare_quarter")
+        if any(a[0] == "bareq" and b[0] == "bareq" for a, b in zip(sp, sp[1:])):
+            out.append("run_of_bare_quarters")
     return sorted(set(out))
 
 
@@ -234,7 +239,7 @@ def lots_classes(c):
 SUBS = [
     Sub("spellings", oracle, strategy=lambda tier: case(), validate=validate, nontrivial=nontrivial, classes=classes, render=render,
         n={"quick": 2500, "thorough": 30000}, shards={"quick": 8, "thorough": 16},
-        essential=("bare_quarter_after_half_without_clean_qq", "chain_continues_after_bare_quarter", "fam=word", "fam=bare", "fam=slash_sp", "fam=dot", "fam=bareq", "join=''", "join=' of the '", "join=' OF THE '", "join='\\n'", "clean_qq")),
+        essential=("bare_quarter_after_half_without_clean_qq", "chain_continues_after_bare_quarter", "run_of_bare_quarters", "fam=word", "fam=bare", "fam=slash_sp", "fam=dot", "fam=bareq", "join=''", "join=' of the '", "join=' OF THE '", "join='\\n'", "clean_qq")),
     Sub("with_lots", oracle_lots, strategy=lambda tier: lots_case(), validate=validate, nontrivial=lambda c: bool(_last_lots.get("div")), classes=lots_classes,
         render=lambda c: {"text": aq.render_spelled(c["sc"]) + c["tail"], "config": c["config"]},
         n={"quick": 600, "thorough": 8000}, shards={"quick": 4, "thorough": 16}, essential=("lot_division_reported", "fam=bareq", "clean_qq")),
